@@ -63,15 +63,21 @@ def main(argv=None) -> int:
     seed = int(os.environ.get("VERIF_SEED", "0") or 0)
     pid = args.pid.upper()
     ctx = core.Ctx(pid, args.tier, seed)
-    # Everything the drivers and the implementation print while running (progress bars without a final newline, JAX warnings)
-    # goes to stderr; stdout carries only the verdict lines, each at the start of a line.
+    # Everything the drivers and the implementation print (progress bars without a final newline - also from atexit hooks and
+    # through rich's stdout proxy -, JAX warnings) goes to stderr for the whole life of the process; the verdict lines are written
+    # straight to the original stdout descriptor, each at the start of a line.
     sys.stdout.flush()
     real_stdout = os.dup(1)
     os.dup2(2, 1)
 
+    def emit(line: str = ""):
+        os.write(real_stdout, (line + "\n").encode())
+
     def restore_stdout():
-        sys.stdout.flush()
-        os.dup2(real_stdout, 1)
+        try:
+            sys.stdout.flush()
+        except Exception:
+            pass
     try:
         mod = importlib.import_module(f"lvf.props.{pid.lower()}")
         if args.replay:
@@ -113,7 +119,7 @@ def main(argv=None) -> int:
                 seen.add((v.key, v.what))
                 unlisted.append(v)
         for k, v in seen_known.items():
-            print(f"KNOWN-FINDING: property={pid} {known[k]['what']} [key={k}]")
+            emit(f"KNOWN-FINDING: property={pid} {known[k]['what']} [key={k}]")
         # cap the number of reported violations per key (each still gets a replay file)
         per_key = {}
         for v in unlisted:
@@ -122,21 +128,21 @@ def main(argv=None) -> int:
         for k, vs in per_key.items():
             for v in vs[:3]:
                 p = core.write_replay(pid, v)
-                print(f"VIOLATION property={pid} replay={p}")
-                print(f"  key={v.key}: {v.what}")
+                emit(f"VIOLATION property={pid} replay={p}")
+                emit(f"  key={v.key}: {v.what}")
                 n_unlisted += 1
             if len(vs) > 3:
-                print(f"  (+{len(vs) - 3} further violations with key={k})")
+                emit(f"  (+{len(vs) - 3} further violations with key={k})")
         if not args.replay and not os.environ.get("LVF_SCRATCH"):
             core.write_evidence(ctx, rep, getattr(mod, "LEVEL", "model_checking"), n_unlisted, len(seen_known))
-        print(f"{pid} tier={args.tier} seed={seed}: states={rep.states} transitions={rep.transitions} "
+        emit(f"{pid} tier={args.tier} seed={seed}: states={rep.states} transitions={rep.transitions} "
               f"traces={rep.traces} evaluations={rep.evaluations} violations={n_unlisted} known={len(seen_known)} "
               f"wall={core.time.time() - ctx.t0:.1f}s")
         return 1 if n_unlisted else 0
     except Exception:
         restore_stdout()
         traceback.print_exc()
-        print(f"MACHINERY-FAILURE property={pid} (exit 2; not a verdict)")
+        emit(f"MACHINERY-FAILURE property={pid} (exit 2; not a verdict)")
         return 2
     finally:
         if not args.keep_work:
